@@ -73,6 +73,15 @@ Unresolved ==
     nofromtpl |-> [tp |-> ("main" :> <<From(LS(NT.nx), <<"mm">>, <<"mm">>), T(sX)>>), err |-> "notfound"],
     nested    |-> [tp |-> ("main" :> <<T(<<97>>), Inc(LS(NT.t1))>>) @@ ("t1" :> <<Block("bb", <<PrintS(Filt("nofilter", LI(1), <<>>))>>)>>), err |-> "unknown"],
     nestedinc |-> [tp |-> ("main" :> <<Inc(LS(NT.t1))>>) @@ ("t1" :> <<T(<<98>>), Inc(LS(NT.nx))>>), err |-> "notfound"],
+    ignnested |-> [tp |-> ("main" :> <<T(<<97>>), Include(LS(NT.t1), Lit(Null), FALSE, FALSE, TRUE, FALSE), T(<<98>>)>>)
+                          @@ ("t1" :> <<T(<<99>>), Inc(LS(NT.nx)), T(<<100>>)>>), err |-> "notfound"],
+    ignnestedimp |-> [tp |-> ("main" :> <<T(<<97>>), Include(LS(NT.t1), Lit(Null), FALSE, FALSE, TRUE, FALSE), T(<<98>>)>>)
+                          @@ ("t1" :> <<T(<<99>>), Import(LS(NT.nx), "L"), T(<<100>>)>>), err |-> "notfound"],
+    ignnestedext |-> [tp |-> ("main" :> <<T(<<97>>), Include(LS(NT.t1), Lit(Null), FALSE, FALSE, TRUE, FALSE), T(<<98>>)>>)
+                          @@ ("t1" :> <<Extends(LS(NT.nx)), Block("bb", <<T(<<100>>)>>)>>), err |-> "notfound"],
+    ignnestedfilter |-> [tp |-> ("main" :> <<T(<<97>>), Include(LS(NT.t1), Lit(Null), FALSE, FALSE, TRUE, FALSE), T(<<98>>)>>)
+                          @@ ("t1" :> <<T(<<99>>), PrintS(Filt("nofilter", LI(1), <<>>))>>), err |-> "unknown"],
+    defaultmask |-> [tp |-> ("main" :> <<T(<<97>>), PrintS(Filt("default", Call("nofn", <<>>), <<LS(<<100>>)>>))>>), err |-> "unknown"],
     inmacro   |-> [tp |-> ("main" :> <<Macro("mw", <<>>, <<PrintS(Call("nofn", <<>>))>>), PrintS(Call("mw", <<>>))>>), err |-> "unknown"]
   ]
 
@@ -90,10 +99,10 @@ Placements(name) ==
 Loaded(name) == (DOMAIN Corpus[name]) \ {"main"}
 
 Cases ==
-    UNION {{[kind |-> "fault", s |-> name, id |-> p.id, nth |-> p.nth, fl |-> ""] : p \in Placements(name)} : name \in DOMAIN Corpus}
-    \cup {[kind |-> "base", s |-> name, id |-> "", nth |-> 0, fl |-> ""] : name \in DOMAIN Corpus}
-    \cup UNION {{[kind |-> "loader", s |-> name, id |-> "", nth |-> 0, fl |-> t] : t \in Loaded(name)} : name \in DOMAIN Corpus}
-    \cup {[kind |-> "unresolved", s |-> name, id |-> "", nth |-> 0, fl |-> ""] : name \in DOMAIN Unresolved}
+    UNION {{[kind |-> "fault", s |-> name, id |-> p.id, nth |-> p.nth, fl |-> "", front |-> FALSE] : p \in Placements(name)} : name \in DOMAIN Corpus}
+    \cup {[kind |-> "base", s |-> name, id |-> "", nth |-> 0, fl |-> "", front |-> fr] : name \in DOMAIN Corpus, fr \in BOOLEAN}
+    \cup UNION {{[kind |-> "loader", s |-> name, id |-> "", nth |-> 0, fl |-> t, front |-> fr] : t \in Loaded(name), fr \in BOOLEAN} : name \in DOMAIN Corpus}
+    \cup {[kind |-> "unresolved", s |-> name, id |-> "", nth |-> 0, fl |-> "", front |-> fr] : name \in DOMAIN Unresolved, fr \in BOOLEAN}
 TpOf(c) == IF c.kind = "unresolved" THEN Unresolved[c.s].tp ELSE Corpus[c.s]
 World(c) == MkWF(TpOf(c), {}, {}, [id |-> c.id, nth |-> c.nth], c.fl)
 Ref(c) == Render(World(c), "main", Ctx)
@@ -111,9 +120,9 @@ Variants == {[debug |-> d, writer |-> w] : d \in BOOLEAN, w \in {"", "buffer", "
 CaseOf(c) ==
     LET ref == Ref(c) IN
     [prop |-> "C17", key |-> ToJson(c),
-     tags |-> {"kind:" \o c.kind, "s:" \o c.s} \cup (IF c.kind = "fault" THEN {"spy:" \o c.id} ELSE {}),
+     tags |-> {"kind:" \o c.kind, "s:" \o c.s} \cup (IF c.kind = "fault" THEN {"spy:" \o c.id} ELSE {}) \cup (IF c.front THEN {"frontloader"} ELSE {}),
      entry |-> "main", ctx |-> Ctx,
-     cfg |-> [faultid |-> c.id, faultnth |-> c.nth, faultload |-> c.fl, loader |-> TRUE],
+     cfg |-> [faultid |-> c.id, faultnth |-> c.nth, faultload |-> c.fl, loader |-> TRUE, frontloader |-> c.front],
      runs |-> {[label |-> (IF v.debug THEN "debug" ELSE "nodebug") \o "/" \o (IF v.writer = "" THEN "render" ELSE v.writer),
                 tp |-> Sources(TpOf(c), LMin), xcalls |-> [id \in {} |-> 0], debug |-> v.debug, writer |-> v.writer] : v \in Variants},
      expect |-> [ok |-> ref.ok, out |-> ref.out, err |-> ref.err,
